@@ -95,8 +95,10 @@ def execute(seed, mode, workdir):
         inner = RetryFailedTrialCallback(max_retry=None if max_retry == -1 else max_retry, inherit_intermediate_values=bool(inherit))
 
         def cb(study, trial):
-            (sched.event if (sched and sched.current_worker()) else ev.append)({"e": "callback", "w": w, "n": trial.number})
+            lg = (sched.event if (sched and sched.current_worker()) else ev.append)
+            lg({"e": "callback", "w": w, "n": trial.number})
             inner(study, trial)
+            lg({"e": "callback_done", "w": w, "n": trial.number})
         return cb
     for w in range(1, nw + 1):
         s = make_storage(url, mk_cb(w), timeout0=(mode == "conc"))
